@@ -44,6 +44,22 @@ func hasCond(p *Path, pred func(a *T, v bool) bool) bool {
 	return false
 }
 
+// isCap: t is the capacity of the queue: its size field (when it keeps one)
+// or the length of its write-once buffer.
+func (q queueAnchors) isCap(t *T) bool {
+	t = stripConv(t)
+	if q.size != "" {
+		if _, ok := selOf(t, q.size); ok {
+			return true
+		}
+	}
+	if t.Op == "len" {
+		_, ok := selOf(t.A[0], q.buf)
+		return ok
+	}
+	return false
+}
+
 type queueAnchors struct {
 	buf, size, length string
 	cursors           []string
@@ -114,7 +130,7 @@ func resolveQueue0(w *World, c *simCtx) queueAnchors {
 			}
 		}
 	}
-	if q.buf == "" || q.size == "" || q.length == "" || q.ctor == nil {
+	if q.buf == "" || q.length == "" || q.ctor == nil {
 		q.err = fmt.Sprintf("queue anchors unresolved (buffer=%q size=%q length=%q)", q.buf, q.size, q.length)
 	}
 	for i := 0; i < st.NumFields(); i++ {
@@ -154,16 +170,10 @@ func ruleQueueCap(w *World, r *RuleResult) {
 		}
 		for _, p := range paths {
 			ltSize := hasCond(p, func(a *T, v bool) bool {
-				// length < size : le(size,length)=false or lt(length,size)=true
-				if a.Op == "le" && !v {
-					_, o1 := selOf(a.A[0], q.size)
-					_, o2 := selOf(a.A[1], q.length)
-					return o1 && o2
-				}
+				// length < capacity
 				if a.Op == "lt" && v {
 					_, o1 := selOf(a.A[0], q.length)
-					_, o2 := selOf(a.A[1], q.size)
-					return o1 && o2
+					return o1 && q.isCap(a.A[1])
 				}
 				return false
 			})
@@ -214,7 +224,7 @@ func ruleModQueue(w *World, r *RuleResult) {
 	}
 	qn := c.a.QueueT.Obj().Name()
 	d := newDedup(r)
-	isSize := func(t *T) bool { _, ok := selOf(t, q.size); return ok }
+	isSize := q.isCap
 	cursor := func(t *T) bool {
 		for _, cf := range q.cursors {
 			if _, ok := selOf(t, cf); ok {
@@ -223,7 +233,9 @@ func ruleModQueue(w *World, r *RuleResult) {
 		}
 		return false
 	}
-	d.add(!w.unstable[qn+"."+q.size], "size-write-once", w.Pos(q.ctor.Pos()), "size stored only in the constructor", "queue capacity field is modified after construction")
+	if q.size != "" {
+		d.add(!w.unstable[qn+"."+q.size], "size-write-once", w.Pos(q.ctor.Pos()), "size stored only in the constructor", "queue capacity field is modified after construction")
+	}
 	d.add(!w.unstable[qn+"."+q.buf], "buffer-write-once", w.Pos(q.ctor.Pos()), "buffer allocated only in the constructor with make(_, size)", "queue buffer is replaced after construction")
 	for _, fn := range libRoots(w) {
 		paths, err := w.Paths(fn)
@@ -690,6 +702,18 @@ func ruleRunOnly(w *World, r *RuleResult) {
 							good = true
 						}
 					}
+					// or the state test written out: warriors[i].state == alive
+					if v.Op == "eq" && v.A[1].IsConst() && w.EnumValues("WarriorState")[v.A[1].C] == "WarriorAlive" {
+						if x, ok := selOf(v.A[0], c.a.StateField); ok {
+							wr := stripEpoch(x)
+							for wr.Op == "deref" {
+								wr = wr.A[0]
+							}
+							if wr.Op == "elem" && wr.A[1].Show() == e.LV.A[1].Show() {
+								good = true
+							}
+						}
+					}
 					d.add(good, "result", c.posOf(e), "result[i] = warriors[i].Alive()", "result element "+e.LV.A[1].Show()+" is "+v.Show()+", not the aliveness of the warrior with the same index")
 				} else {
 					d.add(false, "store/"+e.LV.Show(), c.posOf(e), "", "Run writes simulator state directly ("+e.LV.Show()+"), so it can diverge from stepping with RunCycle")
@@ -955,27 +979,7 @@ func ruleAPIIndex(w *World, r *RuleResult) {
 					continue
 				}
 				ik := idx.Show()
-				upper := hasCond(p, func(a *T, v bool) bool {
-					if a.Op == "lt" && v && a.A[0].Show() == ik && isBound(a.A[1]) {
-						return true
-					}
-					if a.Op == "le" && !v && isBound(a.A[0]) && a.A[1].Show() == ik {
-						return true
-					}
-					return false
-				})
-				lower := idx.Op == "loopvar" || (idx.Op == "add" && idx.contains(func(x *T) bool { return x.Op == "loopvar" })) || !isSigned(idx.Ty)
-				if !lower {
-					lower = hasCond(p, func(a *T, v bool) bool {
-						if a.Op == "lt" && !v && a.A[0].Show() == ik && a.A[1].IsConstVal(0) {
-							return true
-						}
-						if a.Op == "le" && v && a.A[0].IsConstVal(0) && a.A[1].Show() == ik {
-							return true
-						}
-						return false
-					})
-				}
+				upper, lower := indexWithin(w, fn, p, idx, isBound)
 				// stable key per function and index expression
 				key := fmt.Sprintf("%s/warriors[%s]", fn.Name(), ik)
 				msg := ""
